@@ -52,7 +52,10 @@ fn check_method(u: &Universe, t: Triple, x: LTriple, free: Option<LTriple>, maxi
         }
     };
     let want = free.unwrap_or(x);
-    if changed != free.is_some() || (li.language, li.script, li.region) != want {
+    // C08 constrains the flag of minimize only through "a false result leaves the identifier
+    // unchanged": when the minimal form IS the identifier, either flag is consistent with it
+    let flag_free = !maxi && free == Some(x);
+    if (changed != free.is_some() && !flag_free) || (li.language, li.script, li.region) != want {
         tviol(coll, l, sub, format!("LanguageIdentifier::{0}() disagrees with likelysubtags::{0}", if maxi { "maximize" } else { "minimize" }), u, t,
               format!("{} {}", free.is_some(), Universe::show_lib(&Some(want))), format!("{} {}", changed, li));
     }
@@ -423,22 +426,34 @@ pub fn check_c08_triple(u: &Universe, t: Triple, l: &mut Local, coll: &Collector
         // reference comparison below catches it
     }
     // minimize(maximize(x)) == minimize(x)   (function-return level, DESIGN §6.1)
+    // (the same Option, DESIGN 6.1 -- or, for a library that reports "unchanged" when the
+    // minimal form is the input itself, the same identifier after the call)
     match lmin(maxx) {
-        Ok(mm) if mm == m => {}
+        Ok(mm) if mm == m || mm.unwrap_or(maxx) == m.unwrap_or(x) => {}
         o => tviol(coll, l, "c08.min_max", format!("minimize(maximize(x)) != minimize(x) ({})", kind_of(t)), u, t,
                    Universe::show_lib(&m), format!("{:?}", o.map(|o| Universe::show_lib(&o)))),
     }
     // the reference implementation (dictionary); skipped where a UTS #35 fallback could
     // legitimately make the library's maximize differ from the dictionary semantics
-    let fallback_in_play = u.lk.uts35_fallback(t).is_some();
-    if !fallback_in_play {
-        let rm = u.lk.ref_minimize(t).map(|e| u.lib(e));
-        if rm != m {
+    // the reference implementation (dictionary).  Where a UTS #35 fallback that C06 accepts is in
+    // reach of one of the maximize calls of the three-trial rule, every outcome of the rule under
+    // either accepted answer is accepted (ref_minimize_options); elsewhere that set is the single
+    // dictionary answer.  A library that reports "unchanged" for an already minimal identifier
+    // (None where the rule yields the input itself) is accepted as well.
+    let rm = u.lk.ref_minimize(t).map(|e| u.lib(e));
+    if rm != m {
+        let opts = u.lk.ref_minimize_options(t);
+        if opts.len() > 1 {
+            l.counters[2] += 1;
+        }
+        let ok = opts.iter().any(|o| {
+            let o = o.map(|e| u.lib(e));
+            o == m || (m.is_none() && o == Some(x))
+        });
+        if !ok {
             tviol(coll, l, "c08.reference", format!("minimize differs from the reference implementation ({})", kind_of(t)), u, t,
                   Universe::show_lib(&rm), Universe::show_lib(&m));
         }
-    } else {
-        l.counters[2] += 1;
     }
 }
 
@@ -448,7 +463,7 @@ pub fn check_c08_inplace(u: &Universe, t: Triple, vars: &[Variant], ext: &str, l
     let mut li = li0.clone();
     let changed = li.minimize();
     let f = likelysubtags::minimize(x.0, x.1, x.2);
-    if changed != f.is_some() || (changed && (li.language, li.script, li.region) != f.unwrap()) {
+    if (changed != f.is_some() && f != Some(x)) || (li.language, li.script, li.region) != f.unwrap_or(x) {
         tviol(coll, l, "c08.bool", "minimize() bool/fields differ from likelysubtags::minimize".into(), u, t, Universe::show_lib(&f), format!("{} {}", changed, li));
     }
     if !changed && li != li0 {
@@ -472,7 +487,7 @@ pub fn check_c08_inplace(u: &Universe, t: Triple, vars: &[Variant], ext: &str, l
     let mut a = li0.clone();
     a.maximize();
     let ca = a.minimize();
-    if ca != changed || (changed && a != li) {
+    if (ca != changed || (changed && a != li)) && a != li {
         tviol(coll, l, "c08.min_max", "in place: minimize after maximize differs from minimize".into(), u, t, format!("{} {}", changed, li), format!("{} {}", ca, a));
     }
     let mut twice = li.clone();
